@@ -6,7 +6,7 @@ from __future__ import annotations
 from . import gen
 from .model import Coll
 
-DEST_PATHS = ["/", "/a", "/b", "/a/x", "/g/h", "/b/c/d", "/k"]
+DEST_PATHS = ["/", "/a", "/b", "/a/x", "/g/h", "/b/c/d", "/k", "/r/1", "/r/01", "/r/001", "/r/10"]
 FILES = ["f0", "f1"]
 
 
@@ -45,7 +45,10 @@ def _faulted(rng, op, kinds=("F1", "F2")):
         n = gen.nbins_of(op["layout"])
         pl += [p for p in gen.f1_placements(op) if not (p["sub"] == "tril" and n < 2)]
     if "F2" in kinds:
-        pl += gen.f2_placements(op)
+        pl += gen.f2_placements(op, rng)
+    if op["form"] in ("df", "dict") and not op.get("unordered"):
+        # a call refused up front (a requested column the input does not have)
+        pl += [{"kind": "F0", "sub": "badcolumn"}] * max(1, len(pl) // 8)
     if pl:
         op["fault"] = rng.choice(pl)
     return op
@@ -100,6 +103,8 @@ def gen_c15(rng, fs, i, cfg):
 
 def gen_c01(rng, fs, i, cfg):
     """create (all input forms) >> neighbour operations, failed neighbours."""
+    if _ctx(cfg).get("pending01"):
+        return _ctx(cfg)["pending01"].pop(0)
     files = existing_files(fs)
     have = [(f, p) for f in files for p in cooler_paths(fs, f)]
     r = rng.random()
@@ -111,6 +116,29 @@ def gen_c01(rng, fs, i, cfg):
                   mode="w" if rng.random() < 0.05 else "a")
         if have and rng.random() < 0.2 and cfg.get("faults", True):
             _faulted(rng, op)
+        elif rng.random() < 0.05 and cfg.get("faults", True):
+            # an open fails, possibly three or more times in a row: the creation may fail, it must
+            # never report success with pixels missing
+            op["fault"] = {"kind": "F4", "open": rng.randint(0, 4 + len(op["chunks"])), "width": rng.choice([1, 2, 3, 3, 4])}
+        elif len(op["layout"]["names"]) >= 2 and rng.random() < 0.06 and op["form"] != "array":
+            # the caller keeps ONE bin-table object, creates, edits it in place (drops the last
+            # chromosome) and creates again
+            op["bins_object"] = "keep"
+            import copy as _copy
+            op2 = _copy.deepcopy(op)
+            lay2 = op2["layout"]
+            lay2["names"] = lay2["names"][:-1]
+            lay2["edges"] = lay2["edges"][:-1]
+            n2 = gen.nbins_of(lay2)
+            for ch in op2["chunks"]:
+                keep = [k for k in range(len(ch["bin1_id"])) if ch["bin1_id"][k] < n2 and ch["bin2_id"][k] < n2]
+                for c in list(ch):
+                    ch[c] = [ch[c][k] for k in keep]
+            if op2.get("bin_extra"):
+                op2["bin_extra"] = {k: v[:n2] for k, v in op2["bin_extra"].items()}
+            op2["bins_object"] = "shrink"
+            op2.update(file=fid, path="/shrunk%d" % i, mode="a", fault=None)
+            _ctx(cfg).setdefault("pending01", []).append(op2)
         elif op["dtypes"].get("count") == "int32" and op["form"] in ("iter", "iterdict") and rng.random() < 0.12:
             sizes = [len(c["bin1_id"]) for c in op["chunks"]]
             cand = [k for k, n_ in enumerate(sizes) if n_ > 0]
@@ -275,7 +303,11 @@ def gen_c07(rng, fs, i, cfg):
         op["columns"] = ["count"] + extra if rng.random() < 0.7 else extra
     if rng.random() < 0.15:
         col = rng.choice(op["columns"] or ["count"])
-        op["agg"] = {col: rng.choice(["max", "min"])}
+        op["agg"] = {col: rng.choice(["max", "min", "count"])}
+        if op["agg"][col] == "count":
+            cdt = str(fs.lookup(*ins[0]).coll.pixels[col].dtype) if col in fs.lookup(*ins[0]).coll.pixels else "x"
+            if not cdt.startswith("int"):
+                op["agg"][col] = "max"       # a count is stored in the column's own type
     if rng.random() < 0.15 and (not op["agg"] or op["columns"]):
         op["cli"] = True
         if fid not in fs.files and rng.random() < 0.5:
@@ -313,8 +345,16 @@ def gen_coarsen_op(rng, fs, src, i, prop="C08", allow_pool=True):
     extra = [c for c in coll.value_columns if c != "count"]
     if extra and rng.random() < 0.6:
         op["columns"] = ["count"] + extra
-        if rng.random() < 0.3:
-            op["agg"] = {extra[0]: rng.choice(["max", "min"])}
+        if rng.random() < 0.4:
+            fl = str(coll.pixels[extra[0]].dtype).startswith("float")
+            op["agg"] = {extra[0]: rng.choice(["max", "min", "count"] + (["np.std", "np.var"] if fl and not cli else []))}
+    elif str(coll.pixels["count"].dtype).startswith("int") and rng.random() < 0.12 and "count" in coll.pixels:
+        op["agg"] = {"count": "count"}
+        if cli:
+            op["columns"] = ["count"]
+    if not cli and rng.random() < 0.08:
+        # a reader task runs out of memory: the operation may fail, never return wrong aggregates
+        op["fault"] = {"kind": "F6", "where": "aggregate", "task": rng.randint(0, 6), "exc": "MemoryError"}
     return op
 
 
@@ -495,7 +535,45 @@ def gen_c09(rng, fs, i, cfg):
         if rng.random() < 0.12:
             # the run stops somewhere: the file must not pass for a complete multires file
             zop["fault"] = {"kind": "F4", "open": rng.randint(0, 40), "width": 1}
+        if cols and rng.random() < 0.5:
+            zop["agg"] = {extra[0]: rng.choice(["max", "min"])}
+            zop["cli"] = rng.random() < 0.5
+            zop["fields_order"] = rng.sample(cols, len(cols))
+        ctx["zop"] = zop
         return zop
+    if ctx["stage"] == 3 and not ctx.get("two") and rng.random() < 0.35 and ctx.get("zop") is not None \
+            and not ctx["zop"].get("fault") and not ctx["zop"].get("expect_refusal_same_file"):
+        # the same process zoomifies ANOTHER matrix (other table of the same size) into the same
+        # output path
+        ctx["stage"] = 4
+        anc = fs.lookup(*ctx["anc"])
+        if anc is not None and isinstance(anc.coll, Coll) and anc.coll.binsize()[0] is not None:
+            f_, p_ = ctx["anc"]
+            names = list(anc.coll.chromnames)
+            if len(names) >= 2:
+                import copy as _copy
+                # swap the extents of two chromosomes: same number of bins in total, other table
+                c0 = anc.coll
+                b = c0.bins
+                edges = []
+                for c in range(len(names)):
+                    m_ = b["chrom"].values == c
+                    edges.append([int(x) for x in b["start"].values[m_]] + [int(b["end"].values[m_][-1])])
+                edges[0], edges[-1] = edges[-1], edges[0]
+                lay2 = {"names": names, "edges": edges, "kind": "swapped"}
+                if edges[0] != edges[-1]:
+                    op = _same_layout_create(rng, cfg, lay2, c0.symmetric, {c: str(c0.pixels[c].dtype) for c in c0.value_columns},
+                                             cfg.get("maxpx", 80), density="dense")
+                    for ch in op["chunks"]:
+                        for col, dt in op["dtypes"].items():
+                            if "int" in dt:
+                                ch[col] = [min(v, 1000) for v in ch[col]]
+                    op.update(file=f_, path=p_, mode="a")
+                    z2 = dict(ctx["zop"])
+                    z2["nproc"] = rng.choice([1, 2])
+                    ctx["pending"] = [z2]
+                    return op
+    return None
     return None
 
 
@@ -609,7 +687,29 @@ def gen_scool(rng, cfg, fault=False):
 
 def gen_c17(rng, fs, i, cfg):
     ctx = _ctx(cfg)
+    if ctx.get("pending17"):
+        return ctx["pending17"].pop(0)
     r = rng.random()
+    if rng.random() < 0.07:
+        # one bin-table object for two single-cell files, edited in place in between
+        import copy as _copy
+        op = gen_scool(rng, cfg, fault=False)
+        if len(op["layout"]["names"]) >= 2 and not op["bins_as_dict"]:
+            op.update(file="f1", mode="w", bins_object="keep")
+            op2 = _copy.deepcopy(op)
+            lay2 = op2["layout"]
+            lay2["names"] = lay2["names"][:-1]
+            lay2["edges"] = lay2["edges"][:-1]
+            n2 = gen.nbins_of(lay2)
+            for c in op2["cells"].values():
+                for ch in c["chunks"]:
+                    keep = [k for k in range(len(ch["bin1_id"])) if ch["bin1_id"][k] < n2 and ch["bin2_id"][k] < n2]
+                    for col in list(ch):
+                        ch[col] = [ch[col][k] for k in keep]
+            op2.update(file="f2", mode="w", bins_object="shrink")
+            ctx["pending17"] = [op2]
+            ctx["made"] = True
+            return op
     if i == 0 and rng.random() < 0.3:
         # a neighbour that must survive an appended scool
         op = gen.gen_create(rng, maxpx=20, simple=True)
@@ -670,6 +770,25 @@ NEW_NAMES = ["chr1", "chromosome_number_one", "I", "x", "1", "c1", "c2", "chrX",
 def gen_c18(rng, fs, i, cfg):
     ctx = _ctx(cfg)
     have = [(f, p) for f in sorted(fs.files) for p in cooler_paths(fs, f)]
+    if ctx.get("pending18"):
+        return ctx["pending18"].pop(0)
+    if len(have) >= 2 and rng.random() < 0.08:
+        # one rename map (one dict object) applied to two coolers in a row; it names
+        # chromosomes that the first one does not have
+        (fa, pa), (fb, pb) = rng.sample(have, 2)
+        na, nb = fs.lookup(fa, pa).coll.chromnames, fs.lookup(fb, pb).coll.chromnames
+        only_b = [n for n in nb if n not in na]
+        if only_b:
+            pool = [n for n in NEW_NAMES if n not in na and n not in nb]
+            rng.shuffle(pool)
+            m = {}
+            for n in only_b[:2] + rng.sample(na, 1):
+                if pool:
+                    m[n] = pool.pop()
+            if len(set(m.values())) == len(m) and not (set(m.values()) & (set(na) | set(nb))):
+                ctx["pending18"] = [{"op": "rename", "file": fb, "path": pb, "map": dict(m), "held": False,
+                                     "reuse_map": True}]
+                return {"op": "rename", "file": fa, "path": pa, "map": dict(m), "held": False}
     if not have or (len(have) < 2 and rng.random() < 0.3):
         op = gen.gen_create(rng, layout=gen.gen_layout(rng, 4, 5), maxpx=25, simple=rng.random() < 0.6)
         op.update(file=rng.choice(["f0", "f1"]), path=rng.choice(["/", "/a", "/b/c"]), mode="a")
@@ -754,6 +873,8 @@ def gen_cliload(rng, fs, i, cfg):
           "chunksize": rng.choice([1, 2, 3, 5, max(1, total // 2), total + 1, 10**6]),
           "max_merge": rng.choice([1, 2, 3, 200]), "mergebuf": rng.choice([None, 1, 3, 10**6]),
           "binspec": "bed"}
+    if symm and rng.random() < 0.3:
+        op["duplex"] = rng.choice(["lower-first", "upper-first", "mixed"])
     if kind in ("fixed", "fixed-exact", "fixed1", "mixed-one"):
         b = lay["edges"][0][1] - lay["edges"][0][0] if len(lay["edges"][0]) > 2 else None
         for e in lay["edges"]:
@@ -793,7 +914,8 @@ def gen_c02(rng, fs, i, cfg):
 # ===========================================================================
 # C11: balancing
 # ===========================================================================
-MAPS = ["builtin", "eager", "pool.map", "pool.imap", "pool.imap_unordered", "pool.imap_unordered", "cli"]
+MAPS = ["builtin", "eager", "pool.map", "pool.imap", "pool.imap_unordered", "pool.imap_unordered", "cli",
+        "thread.map", "thread.imap_unordered"]
 
 
 def gen_balance_options(rng, n, nchroms):
@@ -860,9 +982,9 @@ def gen_c11(rng, fs, i, cfg):
         m = rng.choice(MAPS)
         c = {"map": m, "chunksize": rng.choice(sizes), "policy": rng.choice(
             ["uniform", "reverse", "rotate", "starve", "sticky", "workers-first", "fifo"])}
-        if m.startswith("pool") or m == "cli":
+        if m.startswith("pool") or m.startswith("thread") or m == "cli":
             c["nproc"] = rng.choice([2, 2, 3, 4])
-        if m.startswith("pool"):
+        if m.startswith("pool") or m.startswith("thread"):
             c["use_lock"] = rng.random() < 0.3
             c["repeat"] = rng.random() < 0.4
         if m == "cli" and c["chunksize"] < 3 and not small:
@@ -872,10 +994,11 @@ def gen_c11(rng, fs, i, cfg):
         configs.append({"map": "builtin", "chunksize": None, "repeat": True})
     visit = []
     for _ in range(rng.randint(1, 2)):
-        m = rng.choice(["builtin", "eager", "pool.map", "pool.imap", "pool.imap_unordered"])
+        m = rng.choice(["builtin", "eager", "pool.map", "pool.imap", "pool.imap_unordered", "thread.map",
+                        "thread.imap_unordered"])
         v = {"map": m, "chunksize": rng.choice([1, 2, 3, 5, nnz - 1 if nnz > 1 else 1, nnz, nnz + 1, 10_000_000]),
              "policy": rng.choice(["uniform", "reverse", "rotate"])}
-        if m.startswith("pool"):
+        if m.startswith("pool") or m.startswith("thread"):
             v["nproc"] = rng.choice([2, 3, 4])
         visit.append(v)
     return {"op": "balance", "file": f, "path": p, "options": opts, "configs": configs, "visit": visit}
